@@ -53,7 +53,7 @@ def judge(events, outs):
         if cls == "harness-error":
             H.append({"seq": ev["seq"], "error": out.get("error"), "trace": out.get("trace")})
             continue
-        if cls in ("skipped", "catalogue-error"):
+        if cls in ("skipped", "catalogue-error", "crashed"):
             continue
 
         if kind == "MAKE_DATA":
